@@ -15,16 +15,10 @@ CONSTANTS
   MaxItems = 1
   Layouts = {}
   TableOnly = {"g1212"}
-  OkRecomputed = TRUE
-INVARIANT InvStage
-INVARIANT InvRaisedNoVerdict
-INVARIANT InvGradesInUnit
+  AttOpts = {"none", "c1", "c12", "c0", "c1e4"}
+  OkRecomputed = FALSE
+  ParentForcesChildDebug = FALSE
+INVARIANT InvOnlyKnownDefect
+INVARIANT InvDefectCause
 INVARIANT InvStaleOk
-INVARIANT InvStripped
-INVARIANT InvDebugOnlyAtAppend
-INVARIANT InvDebugShown
-INVARIANT InvNoLeak
 INVARIANT InvVerdictAgrees
-INVARIANT InvListOrder
-INVARIANT InvAllOrNothing
-INVARIANT InvReturnedWellFormed
